@@ -176,6 +176,70 @@ def impl_many(cases, cfgs, procs=None):
     return [x for o in outs for x in o]
 
 
+# ---------------------------------------------------------------- bridge invariant on the real tokenizer
+LITLIKE = ('Literal', 'WhiteSpace', 'RepeaterNumber', 'RepeaterPlaceholder', 'Field')
+KNOWN_OPS = ('child', 'sibling', 'climb', 'class', 'id', 'close', 'equal')
+
+
+def impl_tokens_accepted(s):
+    """The mode automaton of coq/proofs/SafeBridge.v (W MPlain) on the tokens of the REAL tokenizer: theorem
+    C07_tokenizer_output_wellformed says every tokenizer output is accepted.  None | description."""
+    from emmet.abbreviation.tokenizer import tokenize
+    try:
+        toks = tokenize(s)
+    except Exception:
+        return None
+    mode = ('plain',)
+    for i, t in enumerate(toks):
+        ty = t.type
+        if mode[0] == 'plain':
+            if ty == 'Operator' and t.operator not in KNOWN_OPS:
+                return 'token %d: operator %r outside the table' % (i, t.operator)
+            if ty == 'Quote':
+                mode = ('quote', bool(t.single))
+            elif ty == 'Bracket' and t.open and t.context == 'expression':
+                mode = ('expr',)
+        elif mode[0] == 'quote':
+            if ty == 'Quote':
+                if bool(t.single) != mode[1]:
+                    return 'token %d: quote of the other kind emitted inside quotes' % i
+                mode = ('plain',)
+            elif ty not in LITLIKE:
+                return 'token %d: %s token inside quotes' % (i, ty)
+        else:
+            if ty == 'Bracket' and not t.open and t.context == 'expression':
+                mode = ('plain',)
+            elif ty not in LITLIKE:
+                return 'token %d: %s token inside text braces' % (i, ty)
+    return None
+
+
+def _acc_chunk(strings):
+    return [impl_tokens_accepted(s) for s in strings]
+
+
+def check_bridge_invariant(ctx, strings):
+    strings = list(strings)
+    if len(strings) > 20000:
+        import multiprocessing
+        size = 5000
+        chunks = [strings[i:i + size] for i in range(0, len(strings), size)]
+        with multiprocessing.get_context('fork').Pool(common.NPROC) as pool:
+            res = [x for o in pool.map(_acc_chunk, chunks) for x in o]
+    else:
+        res = _acc_chunk(strings)
+    bad = 0
+    for s, r in zip(strings, res):
+        if r:
+            bad += 1
+            if bad <= 3:
+                ctx.say('BRIDGE INVARIANT fails on the real tokenizer for %r: %s' % (s, r))
+                ctx.broken.append({'kind': 'correspondence', 'file': 'tokenizer-output-accepted-by-mode-automaton',
+                                   'input': s, 'detail': r})
+    ctx.cov['correspondence']['tokenizer_output_accepted_by_mode_automaton(W MPlain) on the implementation'] = {
+        'cases': len(strings), 'disagreements': bad}
+
+
 # ---------------------------------------------------------------- the property oracle
 def user_snippet_lengths(cfg):
     sn = cfg.get('snippets') or {}
@@ -378,6 +442,12 @@ def gen(ctx):
     for a in VALID:
         for cfg in side_cfgs[:6]:
             cs.add(a, cfg, 'valid')
+    # (2b) every key of the built-in snippet tables (implementation side of the wf_cfg sweep theorem)
+    from emmet.config import Config
+    for syn in ('html', 'xsl', 'pug'):
+        for key in Config({'syntax': syn}).snippets:
+            if isinstance(key, str):
+                cs.add(key, {'syntax': syn}, 'builtin-snippet')
     # (3) random strings to length 40, (4) mutations of valid abbreviations, under random option sets
     n_rand = 10000 if quick else 100000
     n_mut = 6000 if quick else 60000
@@ -498,6 +568,18 @@ def run_markup(ctx, model_ok=True):
         a, ci, t = cs.items[i]
         ctx.sample({'component': 'markup', 'abbr': a, 'config': cs.cfgs[ci], 'impl': repr(impl[i])[:160]})
     deep_nesting(ctx)
+    # ---- the invariant behind the tokenizer->converter link, checked on the real tokenizer
+    check_bridge_invariant(ctx, sorted({a for a, ci, t in cs.items if t.startswith('exhaustive:') or t in ('random', 'mutation', 'valid')}))
+    ctx.cov['theorem_status'] = {
+        'full': ['C07_tokenize_safe', 'C07_parser_safe', 'C07_tokenize_parse_safe', 'C07_convert_safe', 'C07_resolve_safe',
+                 'C07_builtin_tables_wf (complete sweep)', 'C07_user_table_wf', 'C07_tokenizer_output_wellformed',
+                 'C07_parser_output_convertible', 'C07_expand_safe (markup model, all inputs, all configurations with wf snippet table)',
+                 'C07_expand_safe_any_table (malformed user snippets: position inside the snippet text)'],
+        'partial': [],
+        'by_construction': ['transform pass and formatters return plain values (no res, no fuel): proofs/SafeFormat.v'],
+        'not_in_model(implementation oracle only)': ['bem.enabled', 'lorem text generation', 'markup.href rewriting',
+                                                     'user callbacks other than the identity', 'CPython recursion limit (known finding)'],
+    }
     # ---- correspondence with the extracted model
     model = ctx.model('markup') if model_ok else None
     if model is None:
